@@ -114,6 +114,7 @@ class Translator:
         self.oracles = {}         # name -> arity
         self.used_inputs = []
         self.labels = {}
+        self.path_types = {}
 
     # ---------- types
     def ctype(self, node):
@@ -260,6 +261,8 @@ class Translator:
                 return self.b2i(self.neg(self.cond(sub, st)))
             if op == "-":
                 v = self.as_int(self.rvalue(sub, st))
+                if v.lo == v.hi and v.atom:
+                    return self.wrap(lit(-v.lo), self.ctype(n))
                 return self.wrap(E("-%s" % v.p(), -v.hi, -v.lo), self.ctype(n))
             if op == "+":
                 return self.rvalue(sub, st)
@@ -282,6 +285,11 @@ class Translator:
             op = n["opcode"]
             if op == "=":
                 lv = self.lvalue(n["inner"][0], st)
+                if lv[0] == "path":
+                    try:
+                        self.path_types[lv[1]] = self.ctype(n["inner"][0])
+                    except KError:
+                        pass
                 v = self.rvalue(n["inner"][1], st)
                 self.write(lv, v, st)
                 return v
@@ -320,6 +328,9 @@ class Translator:
         raise KError("unsupported expression %s" % k)
 
     def arith(self, op, a, b, t):
+        if a.lo == a.hi and b.lo == b.hi and a.atom and b.atom and op in ("+", "-", "*"):
+            v = {"+": a.lo + b.lo, "-": a.lo - b.lo, "*": a.lo * b.lo}[op]
+            return self.wrap(lit(v), t)
         if op == "+":
             r = E("%s + %s" % (a.p(), b.p()), a.lo + b.lo, a.hi + b.hi)
         elif op == "-":
@@ -440,7 +451,100 @@ class Translator:
     def leaf(self, st, ret):
         w = ", ".join('("%s", %s)' % (p, st["mem"][p].s) for p in st["worder"])
         e = ", ".join(st["events"])
-        return "{ ret := %s, writes := [%s], events := [%s] }" % (ret.s, w, e)
+        return ("leaf", "{ ret := %s, writes := [%s], events := [%s] }" % (ret.s, w, e))
+
+    # ---- result trees: ("leaf", term) | ("fall", state) | ("ite", P, a, b)
+    @staticmethod
+    def has(t, kind):
+        if t[0] == "ite":
+            return Translator.has(t[2], kind) or Translator.has(t[3], kind)
+        return t[0] == kind
+
+    @staticmethod
+    def render(t):
+        if t[0] == "leaf":
+            return t[1]
+        if t[0] == "ite":
+            return "if %s then\n%s\nelse\n%s" % (t[1].s, indent(Translator.render(t[2])), indent(Translator.render(t[3])))
+        raise KError("internal: unresolved join")
+
+    def falls(self, t):
+        if t[0] == "fall":
+            return [t[1]]
+        if t[0] == "ite":
+            return self.falls(t[2]) + self.falls(t[3])
+        return []
+
+    def rets(self, t, pc):
+        """[(path condition P, leaf term)] for the returning leaves of t"""
+        if t[0] == "leaf":
+            return [(pc, t[1])]
+        if t[0] == "ite":
+            c = t[1]
+            def conj(a, b):
+                if a is None:
+                    return b
+                return P("%s ∧ %s" % (a.p(), b.p()))
+            return self.rets(t[2], conj(pc, c)) + self.rets(t[3], conj(pc, self.neg(c)))
+        return []
+
+    def merge_val(self, t, get):
+        """value of a variable at the join, as an ite-expression over the falling paths of t"""
+        if t[0] == "fall":
+            return get(t[1])
+        if t[0] == "leaf":
+            return None
+        a, b = self.merge_val(t[2], get), self.merge_val(t[3], get)
+        if a is None:
+            return b
+        if b is None:
+            return a
+        if isinstance(a, Path) or isinstance(b, Path):
+            if isinstance(a, Path) and isinstance(b, Path) and a.name == b.name:
+                return a
+            raise KError("pointer-valued variable differs across branches")
+        if a.s == b.s:
+            return E(a.s, min(a.lo, b.lo), max(a.hi, b.hi), a.atom)
+        return E("if %s then %s else %s" % (t[1].s, a.s, b.s), min(a.lo, b.lo), max(a.hi, b.hi))
+
+    def join(self, t, st0):
+        """merged state of the falling leaves of t, or None if they cannot be merged"""
+        fs = self.falls(t)
+        ev = fs[0]["events"]
+        if any(f["events"] != ev for f in fs):
+            return None
+        m = self.clone(fs[0])
+        names = set()
+        for f in fs:
+            names |= set(f["locals"].keys())
+        for nm in names:
+            if any(nm not in f["locals"] for f in fs):
+                m["locals"].pop(nm, None)       # not initialised on every path
+                continue
+            m["locals"][nm] = self.merge_val(t, lambda s_, nm=nm: s_["locals"][nm])
+        paths = []
+        for f in fs:
+            for p_ in f["worder"]:
+                if p_ not in paths:
+                    paths.append(p_)
+        m["worder"] = paths
+        for p_ in paths:
+            def get(s_, p_=p_):
+                if p_ in s_["mem"]:
+                    return s_["mem"][p_]
+                return self.prior_value(p_, st0)
+            m["mem"][p_] = self.merge_val(t, get)
+        for f in fs:
+            m["declared"] |= f["declared"]
+        return m
+
+    def prior_value(self, path, st0):
+        if path in st0["mem"]:
+            return st0["mem"][path]
+        t = self.path_types.get(path)
+        if t is None:
+            raise KError("cannot merge a write to %s: its C type is unknown at the join" % path)
+        return self.input(path, t)
 
     def clone(self, st):
         return {"locals": dict(st["locals"]), "mem": dict(st["mem"]), "worder": list(st["worder"]),
@@ -456,6 +560,8 @@ class Translator:
             raise KError("control reaches end of non-void kernel")
         s, rest = stmts[0], stmts[1:]
         k = s["kind"]
+        if k == "__join__":
+            return ("fall", st)
         if k == "CompoundStmt":
             return self.run(list(s.get("inner", [])) + rest, st, depth + 1)
         if k == "NullStmt":
@@ -484,10 +590,26 @@ class Translator:
                 return self.run([th] + rest, st, depth + 1)
             if c.const is False:
                 return self.run(([el] if el else []) + rest, st, depth + 1)
+            st0 = self.clone(st)
             st2 = self.clone(st)
-            a = self.run([th] + rest, st, depth + 1)
-            b = self.run(([el] if el else []) + rest, st2, depth + 1)
-            return "if %s then\n%s\nelse\n%s" % (c.s, indent(a), indent(b))
+            JOIN = {"kind": "__join__"}
+            ta = self.run([th, JOIN], st, depth + 1)
+            tb = self.run(([el] if el else []) + [JOIN], st2, depth + 1)
+            t = ("ite", c, ta, tb)
+            if not self.has(t, "fall"):
+                return t
+            try:
+                m = self.join(t, st0)
+            except KError:
+                m = None
+            if m is None:                      # fall back to duplicating the continuation
+                a = self.run([th] + rest, self.clone(st0), depth + 1)
+                b = self.run(([el] if el else []) + rest, self.clone(st0), depth + 1)
+                return ("ite", c, a, b)
+            k = self.run(rest, m, depth + 1)
+            for pc, leafterm in reversed(self.rets(t, None)):
+                k = ("ite", pc, ("leaf", leafterm), k)
+            return k
         if k == "GotoStmt":
             lbl = s["targetLabelDeclId"]
             if lbl not in self.labels:
@@ -543,7 +665,7 @@ class Translator:
             st2 = self.clone(st)
             a = self.run(stmts_from(i) + rest, st, depth + 1)
             b = build(more, st2)
-            return "if %s = %s then\n%s\nelse\n%s" % (v.p(), cv.p(), indent(a), indent(b))
+            return ("ite", P("%s = %s" % (v.p(), cv.p())), a, b)
         return build(cases, st)
 
     def collect_labels(self, stmts, tail):
@@ -574,7 +696,7 @@ class Translator:
                     st["locals"][c["name"]] = self.input(c["name"], t)
         self.collect_labels(list(body.get("inner", [])), [])
         term = self.run(list(body.get("inner", [])), st)
-        return term
+        return self.render(term)
 
 
 def indent(s, n=2):
